@@ -51,6 +51,11 @@ func GenerateConcurrent(bitsize int, stop chan struct{}) (<-chan *big.Int, <-cha
 					closeStopped()
 					return
 				}
+				if x == nil {
+					// Generate() returns nil, nil when it has been stopped: never hand that to the
+					// caller as if it were a result (the select below could still pick the send)
+					return
+				}
 
 				// Only send result and continue generating if we have not been told to stop.
 				// The send itself must be abandoned on stop as well: once the caller has what it
